@@ -274,8 +274,9 @@ def corpus_layout_check(rep, G, repo, limit=400):
             merged.append(toks[i])
             i += 1
         toks2 = (["class", "Ctx", "{"] + merged + ["}", ";"]) if ctx == "member" else merged
-        if ctx == "member" and toks2[3:4] and toks2[3] not in ("template", "static", "enum", "enum class", "__") and len(merged) > 1 and merged[1] == "(":
-            toks2[1] = merged[0]            # a constructor: the class must carry its name
+        h = hdr_end + 1 if hdr_end >= 0 else 0          # first token after an optional template header
+        if ctx == "member" and len(merged) > h + 1 and merged[h] not in ("static", "enum", "enum class", "__") and merged[h + 1] in ("(", "()"):
+            toks2[1] = merged[h]            # a (possibly templated) constructor: the class must carry its name
         parses = False
         for text in layouts_of(G, toks2, default_merged=True).values():
             try:
@@ -285,7 +286,12 @@ def corpus_layout_check(rep, G, repo, limit=400):
             except Exception:
                 pass
         if not parses:
-            continue                        # the abstraction did not produce a stand-alone declaration in ANY layout; skip
+            # the abstraction did not produce a stand-alone declaration in ANY layout: skipped, and said so in the evidence
+            rep.extra["corpus_declarations_skipped"] = rep.extra.get("corpus_declarations_skipped", 0) + 1
+            rep.extra.setdefault("corpus_skipped_examples", [])
+            if len(rep.extra["corpus_skipped_examples"]) < 8:
+                rep.extra["corpus_skipped_examples"].append(" ".join(toks2)[:120])
+            continue
         n += 1
         if layout_differential(rep, G, toks2, default_merged=True):
             break
